@@ -470,10 +470,12 @@ func runFuzz(bin, work, id, target string, seconds int, replayDir, kf string) (m
 		}
 	}
 	frag := filepath.Join(work, "fuzz-"+target+".frag")
+	fuzzTmp := filepath.Join(work, "tmp-"+target) // the fuzz engine's scratch files stay inside the work directory
+	os.MkdirAll(fuzzTmp, 0o755)
 	out, code := runTest(bin, cwd, []string{
 		"-test.run", "^$", "-test.fuzz", "^" + target + "$", "-test.fuzztime", fmt.Sprintf("%ds", seconds),
 		"-test.fuzzcachedir", cache, "-test.timeout", "0",
-	}, []string{"VERIF_TIER=thorough", "VERIF_FRAG=" + frag, "VERIF_REPLAY_DIR=" + replayDir, "VERIF_KF=" + kf, "VERIF_FUZZ=1"},
+	}, []string{"VERIF_TIER=thorough", "VERIF_FRAG=" + frag, "VERIF_REPLAY_DIR=" + replayDir, "VERIF_KF=" + kf, "VERIF_FUZZ=1", "TMPDIR=" + fuzzTmp},
 		time.Duration(seconds)*time.Second+5*time.Minute)
 	st := map[string]any{"seconds": seconds}
 	if ms := reFuzzLine.FindAllStringSubmatch(out, -1); len(ms) > 0 {
